@@ -25,7 +25,7 @@ claim("C13", "exploration", "balance",
 
 claim("C01", "fault_enumeration", "prod",
       "runtime monitor of the real AsyncProducer/SyncProducer against a simulated cluster: enumerated fault words x retry budget x idempotence plus seeded random scenarios with hook-based schedule steering; conservation oracle over submit/outcome events at the API boundary, quiescence-based completion verdict, race detector",
-      "Every fault word of length <= 2 (quick) / <= 3 (thorough) over the 9-letter produce-fault alphabet is run for Retry.Max 0-2 and idempotent on/off on a small scenario; seeded random scenarios add brokers, partitions, flush settings, versions, acks, leader moves, leaderless windows, metadata failures, SyncProducer callers and steering plans; directed multi-step scenarios (retry cycle / leaderless window / second retry cycle; the same partition refused several times in a row with input at several paces and responses held until k more messages are buffered; one response refusing batches of 2-3 partitions of one broker); cases that re-submit message objects handed back on Successes()/Errors(). For each run: every submitted message has exactly one terminal event, no event for anything else, Close/AsyncClose completes (stuck only when nothing moves any more), SyncProducer returns equal the producer's outcome for that pointer.",
+      "Every fault word of length <= 2 (quick) / <= 3 (thorough) over the 9-letter produce-fault alphabet is run for Retry.Max 0-2 and idempotent on/off on a small scenario; seeded random scenarios add brokers, partitions, flush settings, versions, acks, leader moves, leaderless windows, metadata failures, SyncProducer callers and steering plans; directed multi-step scenarios (retry cycle / leaderless window / second retry cycle; the same partition refused several times in a row with input at several paces and responses held until k more messages are buffered; one response refusing batches of 2-3 partitions of one broker; a refusal followed by a refusal that leaves the partition leaderless; messages whose request cannot be encoded); cases that re-submit message objects handed back on Successes()/Errors(). For each run: every submitted message has exactly one terminal event, no event for anything else, Close/AsyncClose completes (stuck only when nothing moves any more), SyncProducer returns equal the producer's outcome for that pointer.",
       "Held on the executions of the run. Successes pending when Close() is called are drained by Close itself (documented) and are then checked through the ap.outcome hook instead of the channel.",
       "DESIGN.md §7 C01")
 claim("C02", "fault_enumeration", "prod",
@@ -40,12 +40,12 @@ claim("C04", "exploration", "prod",
       "DESIGN.md §7 C04")
 claim("C05", "fault_enumeration", "prod",
       "runtime monitor: simulated brokers enforce Kafka's producer id/epoch/sequence rules; oracles over the partition logs (no duplicate, success implies present) and over the sequence of batches received per (partition, producer id, epoch); hook facts attribute violations to mechanisms",
-      "Enumerated fault words x retry budget with idempotence on, random scenarios (half of them submitting sequentially so that no fresh input arrives inside a retry window), the deep-retry directed family of C01, and cases that re-submit message objects handed back by the producer (two in three with the partition worker held at hook pp.newhwm until the first re-used object was sent; judged by record ids and per-epoch sequence continuity). In the clean context (retriable error codes only, no failed message) any deviation is reported with its kind; after a connection fault or a failed message the pinned tree has three known mechanisms (KNOWN_FINDINGS.txt).",
+      "Enumerated fault words x retry budget with idempotence on, random scenarios (half of them submitting sequentially so that no fresh input arrives inside a retry window), the deep-retry directed family of C01, two topics whose name + partition number concatenate to the same string, key-less messages under the default hash partitioner, and cases that re-submit message objects handed back by the producer (two in three with the partition worker held at hook pp.newhwm until the first re-used object was sent; judged by record ids and per-epoch sequence continuity). In the clean context (retriable error codes only, no failed message) any deviation is reported with its kind; after a connection fault or a failed message the pinned tree has three known mechanisms (KNOWN_FINDINGS.txt).",
       "Held on the executions of the run, in the clean context; after connection faults / failed messages the known findings apply.",
       "DESIGN.md §7 C05, §8")
 claim("C16", "exploration", "prod",
       "runtime monitor: sizes and counts of every produce request measured at the simulated cluster (wire size, per-partition key+value bytes, records per request), rejection outcomes, and a quiescence-judged flush clause after the input stops",
-      "Message sizes straddling each limit x Flush.{Messages,Bytes,Frequency,MaxMessages} x MaxMessageBytes x lowered MaxRequestSize x version x partitions per broker, answers delayed by steering so batches accumulate; record headers in 40% of the 0.11+ scenarios; delayed-retry scenarios (only Flush.Frequency, answers slower than the frequency, a retriable refusal, input for several partitions meanwhile, then the input stops); cases that refill message objects handed back earlier with payloads of another size (small / just fitting / 0.6 x limit / oversize, 2-3 rounds) and send them again.",
+      "Message sizes straddling each limit x Flush.{Messages,Bytes,Frequency,MaxMessages} x MaxMessageBytes x lowered MaxRequestSize x version x partitions per broker, answers delayed by steering so batches accumulate; record headers in 40% of the 0.11+ scenarios; a byte trigger that the last message passes on its own; delayed-retry scenarios (only Flush.Frequency, answers slower than the frequency, a retriable refusal, input for several partitions meanwhile, then the input stops); cases that refill message objects handed back earlier with payloads of another size (small / just fitting / 0.6 x limit / oversize, 2-3 rounds) and send them again.",
       "Held on the executions of the run. MaxMessageBytes is kept below MaxRequestSize (the other order is a misconfiguration outside the statement).",
       "DESIGN.md §7 C16")
 
@@ -85,7 +85,7 @@ claim("C17", "exploration", "part",
 
 claim("C06", "exploration", "om",
       "runtime monitor of the real OffsetManager against the simulated group coordinator: recorded call/return history of MarkOffset/ResetOffset/NextOffset per partition, commit observations taken at the om.flush/om.built hooks, final store reads; per-partition porcupine linearizability check against a sequential register model, conservation checks on the requests the coordinator received, race detector",
-      "300 (quick) / 5000 (thorough) seeded histories: 1-4 partitions, 1-4 marker goroutines, auto-commit ticker or one manual committer, per-commit coordinator behaviour word (accept, error classes, partial errors, omitted blocks, dropped connection, coordinator moved), retention, retry budgets, steering that parks the committer between building and handling a commit until marks land inside the window; 40% of the histories use one constant metadata string; Metadata.Retry.Max 0 or 3 and 0-5 OFFSETS_LOAD_IN_PROGRESS answers to the first offset fetches; 1-3 topics per manager. After the behaviour word is exhausted the stored offset/metadata must equal the latest mark (lost-mark clause), also for manual commits.",
+      "300 (quick) / 5000 (thorough) seeded histories: 1-4 partitions, 1-4 marker goroutines, auto-commit ticker or one manual committer, per-commit coordinator behaviour word (accept, error classes, partial errors, omitted blocks, dropped connection, coordinator moved, coordinator moved while the old broker keeps answering COORDINATOR_NOT_AVAILABLE), retention, retry budgets, steering that parks the committer between building and handling a commit until marks land inside the window; 40% of the histories use one constant metadata string; Metadata.Retry.Max 0 or 3 and 0-5 OFFSETS_LOAD_IN_PROGRESS answers to the first offset fetches; 1-3 topics per manager. After the behaviour word is exhausted the stored offset/metadata must equal the latest mark (lost-mark clause), also for manual commits.",
       "Held on the histories of the run; one committer at a time as the statement assumes; porcupine timeouts are inconclusive.",
       "DESIGN.md §7 C06")
 
@@ -97,7 +97,7 @@ claim("C07", "fault_enumeration", "group",
 
 claim("C19", "fault_enumeration", "admin",
       "runtime monitor of the real ClusterAdmin against the simulated cluster's admin side: every admin request is logged at the broker that received it (was it controller / leader / coordinator then, what it answered), return values are judged by a reference model per operation",
-      "Enumerated (operation x Admin.Retry.Max in {0,1,2,5} x controller moves 0..Retry.Max+1 x 16 error codes at top and item level, omitted items, dropped connections), leader/coordinator-bound operations spread over 1-4 brokers, 9 Kafka versions incl. below-minimum, shared and concurrently used admins, admins on a Metadata.Full=false client that looked up a missing topic, controller moves whose election is still running when the admin refreshes (one metadata answer reports controller -1), plus seeded random cases; ~4 100 admin calls in quick, ~49 000 in thorough. State changes at the cluster are compared with the reported outcome.",
+      "Enumerated (operation x Admin.Retry.Max in {0,1,2,5} x controller moves 0..Retry.Max+1 x 16 error codes at top and item level, omitted items, dropped connections), leader/coordinator-bound operations spread over 1-4 brokers, 9 Kafka versions incl. below-minimum, shared and concurrently used admins, a coordinator that changes its address between two calls of a shared admin, admins on a Metadata.Full=false client that looked up a missing topic, controller moves whose election is still running when the admin refreshes (one metadata answer reports controller -1), plus seeded random cases; ~4 100 admin calls in quick, ~49 000 in thorough. State changes at the cluster are compared with the reported outcome.",
       "Held on the calls of the run. ListPartitionReassignments is only exercised fault-free (not among the statement's controller-bound operations); DescribeLogDirs for unknown broker ids is not generated; client-side connection errors under concurrent callers are counted, not judged.",
       "DESIGN.md §7 C19")
 
@@ -115,7 +115,7 @@ claim("C12", "fault_enumeration", "shutdown",
 
 claim("C14", "exploration", "broker",
       "runtime monitor of the real Broker against a raw frame server (unix socket): every call carries a token that the server echoes into its typed response, per-connection event log of frames received / sent and of requests received but not yet answered; oracles for crosstalk, delivery of mismatching answers, success after a connection fault, stuck calls (quiescence), duplicate correlation ids on a connection and the in-flight bound; race detector",
-      "180 enumerated core cases (each single-fault server behaviour x MaxOpenRequests x callers, pile-up cases) plus 300 (quick) / 10 000 (thorough) seeded cases: 1-16 caller goroutines, nine request kinds (incl. flexible-header and acks=0), MaxOpenRequests in {1,2,3,5}, a client-side write that times out with nothing written (20% of the cases), server behaviour words over answer / delay / hold-until-k-pending / swapped / wrong id / stale id / truncated header or body / short or oversize length / bad tag / close / silence (Net.ReadTimeout 150 ms against Net.WriteTimeout 60 s wherever the server goes silent), Close and re-Open racing with calls.",
+      "180 enumerated core cases (each single-fault server behaviour x MaxOpenRequests x callers, pile-up cases) plus 300 (quick) / 10 000 (thorough) seeded cases: 1-16 caller goroutines, nine request kinds (incl. flexible-header and acks=0), MaxOpenRequests in {1,2,3,5}, a client-side write that times out with nothing written (20% of the cases), server behaviour words over answer / delay / hold-until-k-pending / swapped / wrong id / stale id / truncated header or body / short or oversize length / bad tag / close / replayed frame / silence (Net.ReadTimeout 150 ms against Net.WriteTimeout 60 s wherever the server goes silent), Close and re-Open racing with calls.",
       "Held on the executions of the run apart from the known in-flight finding (max+1). An i/o timeout without injected silence is inconclusive; Close itself hanging is C12's clause.",
       "DESIGN.md §7 C14")
 
